@@ -168,6 +168,17 @@ func runC15(ctx *Ctx) *Report {
 		}
 		pairs = append(pairs, pairCase{Kind: "spell-pair", Forest: encForest(f), S1: s1, S2: s2, Fmt: allFormats()[k%len(allFormats())], Exts: extLists[k%len(extLists)]})
 	}
+	// many roots: in the massive mode the blocks of one document are parsed concurrently, in every spelling alike
+	{
+		var many []*Tree
+		for i := 0; i < 800; i++ {
+			many = append(many, &Tree{Name: "r" + fmtInt(i), Kids: []*Tree{{Name: "a", Kids: []*Tree{{Name: "b.go"}, {Name: "c"}}}, {Name: "d" + fmtInt(i%7)}}})
+		}
+		enc := encForest(many)
+		for _, sp := range [][2]int{{5, 1}, {0, 4}, {2, 21}} {
+			pairs = append(pairs, pairCase{Kind: "spell-pair", Forest: enc, S1: sps[sp[0]], S2: sps[sp[1]], Fmt: fmtDefault, Exts: extLists[1]})
+		}
+	}
 	parallel(pairs, ctx.Workers, func(m *Model, c pairCase) {
 		diffs := runPair(m, c)
 		b, _ := json.Marshal(c)
